@@ -185,3 +185,91 @@ _obs34 = obligations
 def obligations():
     return _obs34() + [Ob('O3.5-binary-operator-types', 'builtin binary operators accept exactly the operand types of their signatures', ob_operator_types, ('quick', 'thorough'), 10, dict(unary=False)),
                        Ob('O3.5-unary-operator-types', 'builtin unary operators accept exactly the operand types of their signatures', ob_operator_types, ('quick', 'thorough'), 2, dict(unary=True))]
+
+# ----------------------------------------------------------------------------- O6.2 a struct pattern matches fields by NAME: the sub-pattern written for field f constrains and tests field f
+def ob_struct_pattern(r, tier, seed):
+    W = e2.fresh_world(CRATES); tt = W.tt
+    TY = tt.find_adt(['tast', 'Ty'], 'compiler'); HP = [a for a in tt.by_name['Pat'] if a.crate == 'compiler' and 'hir' in '::'.join(a.path)][0]
+    TP = tt.find_adt(['tast', 'Pat'], 'compiler'); TYPER = tt.find_adt(['typer', 'Typer'], 'compiler'); CO = [a for a in tt.by_name['Constraint'] if a.crate == 'compiler'][0]
+    DI = tt.find_adt(['diagnostics', 'Diagnostics'], 'diagnostics'); SD = tt.find_adt(['env', 'StructDef'], 'compiler'); TI = tt.find_adt(['tast', 'TastIdent'], 'compiler')
+    GTE = tt.find_adt(['env', 'GlobalTypeEnv'], 'compiler'); TEN = tt.find_adt(['env', 'TypeEnv'], 'compiler'); PR = tt.find_adt(['common', 'Prim'], 'compiler')
+    r.bounds = 'struct S { a: int32, b: bool, c: string }; a pattern `S { .. }` listing the three fields in every one of the 6 orders, each field with a literal sub-pattern of its own type (1, true, "s")'
+    r.assumptions = ['HirTable::pat returns the chosen patterns; type-name resolution returns the environment holding S; result recording stubbed',
+                     'oracle: the elaborated constructor pattern has its arguments in declaration order, argument i being the sub-pattern written for the i-th declared field, and every pushed TypeEqual relates equal types (no spurious mismatch)']
+    from props import c03 as c03m
+    c3 = c03m.Ctx(W); cur = {}
+    import itertools
+    orders = list(itertools.permutations(['a', 'b', 'c']))
+    lit = {'a': ('PInt', mkstr('1')), 'b': ('PBool', True), 'c': ('PString', mkstr('s'))}; fty = {'a': 'TInt32', 'b': 'TBool', 'c': 'TString'}
+    def ov(f, g):
+        if 'TypeckResultsBuilder' in g and 'record_' in g:
+            def m_record(ex, f_, a): return UNIT
+            return m_record
+        return None
+    W.overrides = [ov, c03m.ena_overrides(c3)]
+    for meth in ('record_pat_ty', 'record_local_ty', 'record_struct_pat_elab'):
+        for nm in list(W.methods.get(meth, [])): W.stubs[nm[1]] = lambda ex, a: UNIT
+    def stub_pat(ex, a):
+        pid = a[1]
+        while isinstance(pid, Agg): pid = pid.fields[-1]
+        return Ref(cur['pats'], pid)
+    for nm in list(W.methods.get('pat', [])):
+        if nm[2] is not None and nm[2].self_key == 'HirTable': W.stubs[nm[1]] = stub_pat
+    for nm in list(W.methods.get('display', [])):
+        if nm[2] is not None and nm[2].self_key == 'QualifiedPath': W.stubs[nm[1]] = lambda ex, a: mkstr('S')
+    W.stubs['resolve_type_name'] = lambda ex, a: Agg('tuple', 0, [mkstr('S'), Ref(cur, 'genv')])
+    def entry(ex):
+        order = ex.choose([(True, o) for o in orders])
+        genv = ex.call('env::GlobalTypeEnv::new_empty', [])
+        te = genv.fields[[f[0] for f in GTE.variants[0].fields].index('type_env')]
+        sm = te.fields[[f[0] for f in TEN.variants[0].fields].index('structs')]
+        ident = lambda n: Agg(TI.key, 0, [mkstr(n)])
+        sm.keys.append(ident('S')); sm.vals.append(Agg(SD.key, 0, [ident('S'), PyVec([]), PyVec([Agg('tuple', 0, [ident(n), Agg(TY.key, TY.vindex(fty[n]), [])]) for n in 'abc'])]))
+        cur['genv'] = genv
+        QP = tt.find_adt(['hir', 'QualifiedPath'], 'compiler'); HPATH = [a for a in tt.by_name['Path'] if a.crate == 'compiler' and 'hir' in '::'.join(a.path)][0]; HID = tt.find_adt(['hir', 'HirIdent'], 'compiler')
+        qp = Agg(QP.key, 0, [ms.NONE(), Agg(HPATH.key, 0, [PyVec([])])])
+        hid = lambda n: Agg(HID.key, HID.vindex('Name'), [mkstr(n)])
+        pats = {0: Agg(HP.key, HP.vindex('PStruct'), [qp, PyVec([Agg('tuple', 0, [hid(n), Agg('PatId', 0, [i + 1])]) for i, n in enumerate(order)])])}
+        for i, n in enumerate(order): pats[i + 1] = Agg(HP.key, HP.vindex(lit[n][0]), [lit[n][1]])
+        cur['pats'] = pats
+        typer = Agg(TYPER.key, 0, [{'uni': c03m.UTable(), 'constraints': PyVec([]), 'hir_table': Opaque('hir_table'), 'results': Opaque('results')}[f[0]] for f in TYPER.variants[0].fields])
+        PTE = tt.find_adt(['env', 'PackageTypeEnv'], 'compiler')
+        penv = Agg(PTE.key, 0, [{'package': mkstr('Main'), 'current': genv, 'deps': ms.engine.PyMap('hash')}[f[0]] for f in PTE.variants[0].fields])
+        h = {0: typer, 1: penv, 2: Opaque('local_env'), 3: Agg(DI.key, 0, [PyVec([])]), 4: Agg(TY.key, TY.vindex('TStruct'), [mkstr('S')])}
+        out = ex.call('Typer::check_pat_constructor', [Ref(h, 0), Ref(h, 1), Ref(h, 2), Ref(h, 3), Agg('PatId', 0, [0]), Ref(h, 4)])
+        cons = typer.fields[[f[0] for f in TYPER.variants[0].fields].index('constraints')].items
+        eqs = [tuple(TY.variants[x.idx].name for x in c_.fields) for c_ in cons if CO.variants[c_.idx].name == 'TypeEqual']
+        args = []
+        if TP.variants[out.idx].name == 'PConstr':
+            for a_ in dict(zip([x[0] for x in TP.variants[out.idx].fields], out.fields))['args'].items:
+                if TP.variants[a_.idx].name == 'PPrim': args.append(PR.variants[a_.fields[0].idx].name)
+                else: args.append(TP.variants[a_.idx].name)
+        return order, args, eqs, len(h[3].fields[0].items)
+    res = e2.explore(r, W, entry, [])
+    for p in res:
+        r.cases += 1
+        if p.kind != 'ok':
+            if not any(f.key == 'panic' for f in r.findings): r.findings.append(Finding('panic', 'check_pat_constructor panics: %s' % p.value, {}, False, 'not replayed'))
+            continue
+        order, args, eqs, nd = p.value
+        r.nontrivial += 1
+        bad_eq = [e_ for e_ in eqs if e_[0] != e_[1] and 'TVar' not in e_]
+        if args != ['Int32', 'Bool', 'String'] or bad_eq or nd:
+            if r.findings: continue
+            ok_, detail = replay_struct_pattern(order)
+            r.findings.append(Finding('struct-pattern-fields-by-position', 'pattern `S { %s }` on struct S { a: int32, b: bool, c: string } elaborates to arguments %s (declaration order expects [Int32, Bool, String]); mismatching constraints %s, %d diagnostics' % (', '.join('%s: ..' % n for n in order), args, bad_eq, nd), {'order': list(order)}, ok_, detail))
+        elif len(r.samples) < 3: r.samples.append({'order': list(order), 'args': args})
+
+def replay_struct_pattern(order):
+    v = {'a': '1', 'b': 'true', 'c': '"s"'}
+    src = 'struct S { a: int32, b: bool, c: string }\nfn f(s: S) -> int32 { match s { S { %s } => 1, _ => 2 } }\nfn main() -> unit { () }\n' % ', '.join('%s: %s' % (n, v[n]) for n in order)
+    d = tempfile.mkdtemp(prefix='vf-c06-')
+    try:
+        open(os.path.join(d, 'main.gom'), 'w').write(src)
+        p = subprocess.run([build.compiler_bin(), 'run', '--dump-tast', os.path.join(d, 'main.gom')], capture_output=True, text=True, timeout=60)
+    finally: shutil.rmtree(d, ignore_errors=True)
+    txt = p.stdout + p.stderr
+    return ('error (' in txt or 'panicked' in txt), 'goml `%s`: %s' % (src.replace('\n', ' | '), txt[:200].replace('\n', ' | '))
+
+def obligations_c06():
+    return [Ob('O6.2-struct-pattern-by-name', 'a struct pattern binds and tests fields by name, whatever order they are written in', ob_struct_pattern, ('quick', 'thorough'), 2, {})]
